@@ -255,13 +255,21 @@ type refReturn struct{ v rval }
 type refError struct{ msg string }
 
 func (st *refState) lookup(name string) rval {
-	for i := len(st.locals) - 1; i >= 0; i-- {
-		if v, ok := st.locals[i][name]; ok {
+	// a variable is found under the name as written; a name with the legacy "$" prefix that no variable
+	// has stands for the variable or field without the prefix
+	for pass := 0; pass < 2; pass++ {
+		for i := len(st.locals) - 1; i >= 0; i-- {
+			if v, ok := st.locals[i][name]; ok {
+				return v
+			}
+		}
+		if v, ok := st.vars[name]; ok {
 			return v
 		}
-	}
-	if v, ok := st.vars[name]; ok {
-		return v
+		if !strings.HasPrefix(name, "$") {
+			break
+		}
+		name = strings.TrimPrefix(name, "$")
 	}
 	if v, ok := st.fields[name]; ok {
 		return v
@@ -672,7 +680,11 @@ func (g *gen) intExpr(d int) *gExpr {
 		if len(g.loopInts) > 0 && g.pick(2) == 0 {
 			return &gExpr{op: "var", s: g.loopInts[g.pick(len(g.loopInts))]}
 		}
-		return &gExpr{op: "var", s: g.intVars[g.pick(len(g.intVars))]}
+		name := g.intVars[g.pick(len(g.intVars))]
+		if !strings.HasPrefix(name, "$") && g.pick(10) == 0 {
+			name = "$" + name // the legacy spelling of a read
+		}
+		return &gExpr{op: "var", s: name}
 	case k == 5:
 		return g.intLit()
 	case k <= 8:
@@ -990,7 +1002,11 @@ func genProgram(r *rand.Rand, maxDepth, maxSize int, consts bool) ([]*gStmt, []s
 	g := &gen{r: r, maxDepth: maxDepth, maxSize: maxSize, consts: consts}
 	nv := 1 + r.Intn(3)
 	for i := 0; i < nv; i++ {
-		g.intVars = append(g.intVars, fmt.Sprintf("v%d", i))
+		name := fmt.Sprintf("v%d", i)
+		if i > 0 && i == nv-1 && r.Intn(3) == 0 {
+			name = "$" + name // a variable whose name carries the prefix, wherever it is written
+		}
+		g.intVars = append(g.intVars, name)
 	}
 	var prog []*gStmt
 	for _, v := range g.intVars {
